@@ -1,6 +1,16 @@
 """C14 — The mixer is linear: mute means silence, channels superpose, separation mirrors.
 
-proof      : XmpProps.C14 over XmpModel.MixLinear (+ generated constants XmpModel.Gen.MixLinearConsts)
+proof      : XmpProps.C14 over XmpModel.MixLinear (+ generated constants XmpModel.Gen.MixLinearConsts) and over
+             XmpModel.MixKernel / MixKernelPaula, bit-exact models of all 40 kernels of src/mix_all.c and the 4 Paula
+             kernels of src/mix_paula.c (+ Gen.MixKernelConsts / Gen.MixKernelPaulaConsts: shifts, BLEP table,
+             filter clamp, kernel-table flags and the four cubic spline tables of precomp_lut.h, regenerated every run)
+kernel tie : harness/c14_kernel.c calls every real kernel through the tables of mixer.c (3 interpolators x 16 table
+             entries) on random voices / sample windows / accumulator buffers (modes rand, edge = limits of the
+             ranges the bound theorems assume, wrap = full-range accumulator words); buffer and filter memory after
+             the call are compared bit for bit with Xmp.MixKernel.run on drv_c14 (command k2), and nothing else of
+             *vi may be written; the same comparison runs on kernel calls sampled from real renders (spy wrappers).
+             Mode paula does the same for the four Paula kernels (a500_mixers[] / a500led_mixers[]) with the whole
+             Paula state (BLEP list, double remainder) going in and out (Xmp.MixKernel.Paula.prun, command pk).
 tie        : harness/c14_mixlinear.c includes src/mixer.c privately and interposes
              libxmp_mixer_softmixer: per tick the full 32-bit accumulator is compared bit-for-bit with
              the wrapping sum of per-voice solo mixes replayed from a snapshot (and every voice's final
@@ -15,7 +25,11 @@ regression : it_note_delay_nna.it with master volume 0 (F6, fixed 24b5355, signa
              NP2.Multica at 4000 Hz with XMP_FLAGS_A500 (Paula kernel read past the sample end, fixed
              15834b2, signature harness-abort:heap-buffer-overflow@libxmp_mix_stereoout_mono_a500);
              Mexx-BitBlaster-1.TrackerPacker2 from order 7 in A500 mode (Paula state surviving voice-slot reuse
-             breaks superposition, signature superposition:solo_sum:a500).
+             breaks superposition, signature superposition:solo_sum:a500);
+             overdrive*.it (tools/gen_c14_synth.py): 16..64 coherent full-scale voices, the excluded point of
+             C14_kernel_no_wrap - `*(buffer++) += ...` overflowed a signed int (found by this check, fixed 582c114,
+             signature harness-abort:ub:signed integer overflow...@libxmp_mix_*); now the accumulator wraps and the
+             tick must be the sum of the solo mixes modulo 2^32.
 """
 import os
 import re
@@ -36,6 +50,21 @@ MANIFEST = dict(
          "voices) for the repaired rule of process_volume, C14_silence_master_counterexample refutes it for the pinned rule (finding F6) and "
          "C14_silence_master_status decides which one applies from the flag the translator regenerates from src/player.c on every run; C14_separation_zero/_mirror_pan/_mirror_vol/"
          "_mirror/_mirror_tick/_zero_tick prove separation 0 => L=R and mix -> -mix swaps left/right for a whole voice tick. "
+         "For the concrete kernels of src/mix_all.c (XmpModel/MixKernel.lean: nearest/linear/spline x 8/16-bit x mono/stereo sample x "
+         "mono/stereo output x IT filter, volume ramp, position walk, filter write-back, the kernel tables of mixer.c, the generated cubic "
+         "spline table) C14_kernel_adds proves buffer_after = buffer_before + contribution(voice, arguments) with a filter memory that does "
+         "not depend on the buffer; C14_kernel_superposition/_order_independent/_solo_independent give exact superposition (mod 2^32) of "
+         "ticks made of real kernel calls; C14_kernel_refines proves that the abstract kernel of the tick model is what every real kernel "
+         "computes on frames derived from the voice alone; C14_kernel_silence: zero levels leave the buffer untouched; C14_kernel_bound: "
+         "|word| <= sampleBound x level with sampleBound 32768 (nearest, linear) / 40960 (spline, from the table) / 65536 (filter clamp); "
+         "C14_kernel_fits: no intermediate C value overflows for 16-bit levels; C14_kernel_levels + C14_anticlick_bound bound the levels and "
+         "the anticlick ramp by the voice volume; C14_kernel_no_wrap(_voices): the accumulator holds the true integer sum while voices x "
+         "sampleBound x level < 2^31 (instances: 128 voices up to level 255 with filter, 63 voices at nominal full scale 1024, 31 at master "
+         "200 %), C14_kernel_wrap_possible: beyond that it wraps and only the mod-2^32 statement holds; C14_kernel_mirror/_center: exchanging "
+         "left/right levels and ramps exchanges the words of every frame (mono samples; C14_kernel_mirror_stereo: stereo samples with the "
+         "sample channels and filter memory exchanged too). C14_paula_adds/_silence/_bound/_mirror state the same "
+         "for the four Paula (A500) kernels of src/mix_paula.c over their own bit-exact model, and C14_adders_superpose/C14_paula_is_adder "
+         "give exact superposition for any mixture of kernel and Paula calls. "
          "The model is tied to the C on every run (accumulator-exact solo decomposition of the real libxmp_mixer_softmixer, kernel spies, "
          "twin contexts) and a direct oracle searches whole renders for failing inputs.",
     note="Finding F6 (background/NNA voices scaled by smix_vol instead of master_vol) was repaired in /repo (24b5355); the model follows "
@@ -43,14 +72,24 @@ MANIFEST = dict(
          "a regression case (signature silence:master_vol:nna). This check also found the Paula-kernel read past the sample end (fixed "
          "15834b2) and that the Paula state of a voice slot survived its reuse by another channel, which made one channel's audio depend on "
          "another channel being muted in A500 mode (signature superposition:solo_sum:a500); both witnesses stay in every run. "
-         "Modelled-not-verified: that each kernel's sample sequence (interpolation, filter, Paula BLEP) is a function of the voice alone is "
-         "established by the exact per-tick solo decomposition on the cases run, not by a theorem about mix_all.c; voice allocation / "
-         "eviction (virtual.c alloc_voice/free_voice), effect processing and envelopes before the volume tail, the sample position "
-         "arithmetic in double, Paula kernels in the kernel/voice-tick cases (their state is not extractable; they are covered by the "
-         "accumulator tie only), effects-mixer (smix) channels. C int arithmetic is modelled as unbounded Int (values observed stay far "
-         "below 2^31). Correspondence is sampled (differential), not exhaustive.",
+         "Proving the no-wrap bound exposed its excluded point as a defect: with the player's default settings 13 coherent full-scale voices "
+         "of an IT file with mixing volume 255 (24 at the legal maximum 128) overflow the signed accumulation of MIX_OUT (UB; fixed 582c114, "
+         "unsigned add); the witnesses run in every tier on the sanitized build and must superpose modulo 2^32. "
+         "The Paula kernels of mix_paula.c are modelled bit-exactly too (XmpModel/MixKernelPaula.lean: BLEP list, generated winsinc table, "
+         "the double-precision clock as exact m*2^e arithmetic with IEEE round-to-nearest-even addition); their contribution bound uses only "
+         "the 16-bit clamp of output_sample (32768 x 256 x level), a sharper bound from the BLEP table is not proved. "
+         "Modelled-not-verified: the span loop of libxmp_mixer_softmixer in double arithmetic (which spans a voice gets per tick) is a parameter of voiceTick; "
+         "vi->pos enters the kernel model as the exact rational value of the double; voice allocation / eviction (virtual.c), effect "
+         "processing and envelopes before the volume tail, effects-mixer (smix) channels. In the kernel model C int/int64 expressions are "
+         "unbounded Int and the range theorems (C14_kernel_fits, lerp_product_fits, spline_acc_fits, preamp_fits, filter_sum_fits) show that "
+         "nothing but the accumulation can leave its C type, for sample memory of the element type, 16-bit levels and filter coefficients "
+         "below 2^27; the volume stage of XmpModel/MixLinear.lean still uses unbounded Int (observed |vi->vol| and levels are recorded). "
+         "Correspondence is sampled "
+         "(differential), not exhaustive.",
     technique="Lean 4 proofs (commutative-monoid fold over BitVec 32, floor-division sum bounds, symmetry of the voice tick under L/R "
-              "exchange) + accumulator-exact differential correspondence with TU inclusion / interposition + whole-render oracles",
+              "exchange, loop invariants over a bit-exact kernel model, decide over the generated spline table) + bit-exact differential "
+              "correspondence of every kernel (table-driven, random + real calls) + accumulator-exact solo decomposition with TU inclusion / "
+              "interposition + whole-render oracles",
     design_ref="DESIGN.md section 4 C14",
 )
 REQUIRED = ["Xmp.MixLinear." + n for n in (
@@ -60,9 +99,20 @@ REQUIRED = ["Xmp.MixLinear." + n for n in (
     "C14_silence_mute", "C14_silence_master_partial", "C14_silence_master_full", "C14_silence_master_counterexample",
     "C14_silence_master_status",
     "C14_separation_zero", "C14_separation_mirror_pan", "C14_separation_mirror_vol", "C14_separation_mirror",
-    "C14_separation_mirror_tick", "C14_separation_zero_tick")]
+    "C14_separation_mirror_tick", "C14_separation_zero_tick")] + ["Xmp.MixKernel." + n for n in (
+    "C14_kernel_adds", "C14_kernel_length", "C14_kernel_superposition", "C14_kernel_order_independent",
+    "C14_kernel_solo_independent", "C14_kernel_silence", "C14_kernel_silence_noramp", "C14_kernel_bound",
+    "C14_kernel_frac_range", "C14_kernel_fits", "C14_kernel_no_wrap", "C14_kernel_no_wrap_voices", "C14_kernel_levels",
+    "C14_anticlick_bound", "C14_kernel_no_wrap_instances",
+    "C14_kernel_wrap_possible", "C14_kernel_mirror", "C14_kernel_mirror_stereo", "C14_kernel_center", "C14_kernel_refines", "contrib_eq_kernel",
+    # helper facts the property-level statements cite (XmpProofs/MixKernel.lean)
+    "shapes_recognised", "splineRow_abs", "splineRows_unit_gain", "lerp_product_fits", "spline_acc_fits", "preamp_fits",
+    "filter_sum_fits", "filt_bound", "fetch_bound", "loopBuf_eq", "mixCalls_eq_tick",
+    "C14_adders_superpose", "C14_paula_is_adder")] + ["Xmp.MixKernel.Paula." + n for n in (
+    "C14_paula_adds", "C14_paula_silence", "C14_paula_bound", "C14_paula_mirror", "ploopBuf_eq")]
 
 HARNESS = ("c14_mixlinear", ["c14_mixlinear.c"])
+KHARNESS = ("c14_kernel", ["c14_kernel.c"])
 NNA_WITNESSES = ["it_note_delay_nna.it"]      # F6 witness of DESIGN.md section 5, always in the silence set
 A500_SOLOSUM_WITNESSES = ["Mexx-BitBlaster-1.TrackerPacker2"]   # Paula state survives voice-slot reuse (found by this check)
 PAULA_WITNESSES = ["NP2.Multica"]             # Paula kernel read past the sample end at 4000 Hz (found by this check)
@@ -137,6 +187,9 @@ def model_compare(ck, what, out, stats):
             nontrivial = any(x != "0" for x in ef)
         elif kind == "vt":
             nontrivial = any(x != "0" for x in ef[6:])
+        elif kind in ("k2", "pk"):      # the buffer after the call differs from the buffer before it
+            nb = int(ef.index("|")) if "|" in ef else 0
+            nontrivial = ef[nb + 1:] != c.split()[-(len(ef) - nb - 1):]
         ck.count(key, nontrivial=nontrivial)
         if ok:
             ck.cov["traces_validated_against_impl"] += 1
@@ -145,14 +198,61 @@ def model_compare(ck, what, out, stats):
             if stats["model_mismatch_" + kind] > 3:      # the first three per kind are reported, the rest counted
                 continue
             first = next((i for i, (a, b) in enumerate(zip(ef, gf)) if a != "*" and a != b), -1)
-            ck.unproved("correspondence MixLinear.%s vs the C (%s)" % (
+            ck.unproved("correspondence %s%s vs the C (%s)" % ("Xmp." if kind in ("k2", "pk") else "Xmp.MixLinear.", 
                 {"sum": "tick", "vol": "volLR/level/rampDelta", "kern": "kernel", "dmx": "outSample", "vt": "voiceTick",
-                 "mst": "voiceVol", "pan": "voicePan"}.get(kind, kind), what),
+                 "mst": "voiceVol", "pan": "voicePan", "k2": "MixKernel.run (bit-exact kernel)", "pk": "MixKernel.Paula.prun (bit-exact Paula kernel)"}.get(kind, kind), what),
                 "case: %s\nreal : %s\nmodel: %s\nfirst differing field: %d" % (c[:600], e[:400], g[:400], first))
 
 
+def run_kshard(args):
+    exe, mode, seed, first, n = args
+    rc, out, err = vlib.run_exe(exe, [mode, str(seed), str(first), str(n)], timeout=900)
+    return rc, out.decode("latin-1"), err
+
+
+def kernel_tie(ck, stats, quick):
+    """Bit-exact tie of Xmp.MixKernel.run with every real kernel of mix_all.c (through the tables of mixer.c)."""
+    seed = ck.seed
+    # `wrap`: full-range accumulator words, the accumulation wraps (defined since 582c114: unsigned add)
+    plan = [("rand", "asan", 4800 if quick else 96000), ("edge", "asan", 1920 if quick else 24000),
+            ("wrap", "asan", 1920 if quick else 24000),
+            # the four Paula kernels through a500_mixers[] / a500led_mixers[] (Xmp.MixKernel.Paula.prun, command pk)
+            ("paula", "asan", 1200 if quick else 24000)]
+    per = 240 if quick else 1500
+    seen = set()
+    for mode, variant, total in plan:
+        exe = vlib.build_harness(*KHARNESS, variant=variant)
+        shs = [(exe, mode, seed, first, min(per, total - first)) for first in range(0, total, per)]
+        for sh, (rc, out, err) in zip(shs, vlib.pmap(run_kshard, shs)):
+            if rc != 0:
+                sig = vlib.sanitizer_signature(err)
+                ck.violation("harness-abort:" + sig, {"kernel_mode": mode, "seed": seed, "first": sh[3], "n": sh[4], "variant": variant,
+                                                     "stderr": err[-3000:]},
+                             "c14 kernel harness (%s) aborted rc=%d: %s" % (mode, rc, sig))
+                continue
+            lines = out.splitlines()
+            for l in lines:
+                if l.startswith("kstat "):
+                    d = dict(x.split("=", 1) for x in l.split()[1:])
+                    seen.add((mode, d["interp"], d["id"]))
+                    for k in ("ac", "filter", "rev"):
+                        stats["kernel_" + k + "_calls"] = stats.get("kernel_" + k + "_calls", 0) + int(d[k])
+                elif l.startswith("tie_fail "):
+                    stats["kernel_voice_write"] = stats.get("kernel_voice_write", 0) + 1
+                    if stats["kernel_voice_write"] <= 3:
+                        ck.unproved("correspondence MixKernel.run vs the C (a kernel wrote *vi outside filter.l1/l2/r1/r2)", l[:400])
+            model_compare(ck, "kernel:" + mode, out, stats)
+    stats["kernel_table_entries_hit"] = len({(i, d) for (_, i, d) in seen if i != "9"})
+    stats["kernel_paula_entries_hit"] = len({d for (_, i, d) in seen if i == "9"})
+    if stats["kernel_paula_entries_hit"] != 4:
+        ck.unproved("correspondence MixKernel.Paula coverage", "only %d of the 4 Paula kernels were exercised" % stats["kernel_paula_entries_hit"])
+    if stats["kernel_table_entries_hit"] != 48:
+        ck.unproved("correspondence MixKernel coverage", "only %d of the 48 kernel table entries (3 interpolators x 16 ids) were exercised"
+                    % stats["kernel_table_entries_hit"])
+
+
 def run(ck):
-    ck.gen(gen_mixlinear.generate)
+    ck.gen(gen_mixlinear.generate_all)
     ck.proofs(["XmpProps.C14"], required=REQUIRED, drivers=["drv_c14"])
     exe = vlib.build_harness(*HARNESS)
     quick = ck.tier == "quick"
@@ -175,6 +275,19 @@ def run(ck):
                               "one_frame_calls", "fails"):
                         bump(prefix + "_" + k, int(d[k]))
                     bump(prefix + "_modules")
+                    bump(prefix + "_k2_cases", int(d.get("k2", 0)))
+                    bump(prefix + "_pk_cases", int(d.get("pk", 0)))
+                    for k in ("maxvol", "maxlevel", "maxactive"):
+                        stats["observed_" + k] = max(stats.get("observed_" + k, 0), int(d.get(k, 0)))
+                    bump("observed_accumulator_wraps", int(d.get("wraps", 0)))
+                    stats["observed_max_exact_sum"] = max(stats.get("observed_max_exact_sum", 0), int(d.get("maxacc", 0)))
+                    # C14_kernel_bound on the render: every voice adds at most sampleBound(65536) x level per word, plus at
+                    # most as much again as anticlick residue of an earlier span
+                    lim = 2 * int(d.get("maxactive", 0)) * 65536 * max(int(d.get("maxlevel", 0)), 1)
+                    if int(d.get("maxacc", 0)) > lim:
+                        ck.unproved("correspondence C14_kernel_bound vs the C (%s)" % mode,
+                                    "%s: exact accumulator sum %s exceeds 2 x %s voices x 65536 x level %s" % (
+                                        line.split()[1], d.get("maxacc"), d.get("maxactive"), d.get("maxlevel")))
                     # each tick is one exact accumulator comparison (full mix vs wrapping sum of the solo mixes)
                     ck.count((mode, line.split()[1], seed, repr(env)), nontrivial=int(d["multi"]) > 0, n=int(d["ticks"]))
                     ck.cov["traces_validated_against_impl"] += int(d["ticks"]) - min(int(d["fails"]), int(d["ticks"]))
@@ -192,6 +305,9 @@ def run(ck):
                                  "the mix of a tick is not the sum of its voices' solo mixes: " + line[:300])
             model_compare(ck, mode, out, stats)
 
+    # ---------------- bit-exact kernel tie (random voices, every kernel table entry) ----------------
+    kernel_tie(ck, stats, quick)
+
     # synthetic modules (tiny loops, retriggers, hard pans): written from the seed
     synth = gen_c14_synth.generate(os.path.join(vlib.OUT, "c14-synth"), seed, 3 if quick else 8)
     ck.note("synthetic_modules", len(synth))
@@ -203,6 +319,38 @@ def run(ck):
     for interp in (0, 1, 2):
         tie_like("tie", 120 if quick else 400, synth, "synth_tie", env={"C14_INTERP": str(interp)})
 
+    # ---------------- the excluded point of C14_kernel_no_wrap: voices x sampleBound x level >= 2^31 ----------------
+    # Coherent full-scale voices with the player's default settings (found by this check: `*(buffer++) += ...` of
+    # MIX_OUT overflowed a signed int, fixed 582c114: the accumulation is done in unsigned arithmetic).  The
+    # accumulator wraps and the tick must still be the sum of the solo mixes modulo 2^32 (C14_kernel_superposition);
+    # any sanitizer report is a violation like everywhere else.
+    over = gen_c14_synth.overdrive_modules(os.path.join(vlib.OUT, "c14-synth"))
+    for path in over:
+        rc, out, err = vlib.run_exe(exe, ["overdrive", str(seed), "8", path], timeout=600)
+        text = out.decode("latin-1")
+        st = next((kv(l) for l in text.splitlines() if l.startswith("overdrivestat ")), None)
+        name = os.path.basename(path)
+        if rc != 0:
+            sig = vlib.sanitizer_signature(err)
+            ck.violation("harness-abort:" + sig, dict(replay_obj("overdrive", seed, 8, path, ""), stderr=err[-3000:]),
+                         "c14 harness (overdrive, %s) aborted rc=%d: %s" % (name, rc, sig))
+            continue
+        if st is None:
+            ck.unproved("overdrive witness did not run", "%s: %s" % (name, text[-300:]))
+            continue
+        ck.count(("overdrive", name), nontrivial=int(st["wraps"]) > 0, n=int(st["ticks"]))
+        ck.cov["traces_validated_against_impl"] += int(st["ticks"]) - min(int(st["fails"]), int(st["ticks"]))
+        bump("overdrive_wrapped_words", int(st["wraps"]))
+        stats["overdrive_max_exact_sum"] = max(stats.get("overdrive_max_exact_sum", 0), int(st["maxacc"]))
+        for line in text.splitlines():
+            if line.startswith("tie_fail "):
+                ck.violation(line.split()[1] + ":" + name, replay_obj("overdrive", seed, 8, path, line),
+                             "wrapped accumulator is not the sum of the solo mixes modulo 2^32: " + line[:300])
+        # the model's verdict for this witness: N voices, level L, unfiltered linear kernels (sampleBound 32768)
+        n_, l_ = int(st["maxactive"]), int(st["maxlevel"])
+        if n_ * 32768 * l_ < 2 ** 31 and int(st["wraps"]) > 0:
+            ck.unproved("correspondence C14_kernel_no_wrap vs the C", "%s: %d voices x 32768 x level %d < 2^31 but %s words wrapped"
+                        % (name, n_, l_, st["wraps"]))
     # ---------------- regression configuration: lowest rate + Paula kernels ----------------
     allfiles = vlib.corpus_files()
     lmods = [f for f in allfiles if os.path.basename(f) in PAULA_WITNESSES]
@@ -291,6 +439,7 @@ def run(ck):
         oracle("solosum", 150 if quick else 400, synth, "solosumstat", solosum_stat, env)
         oracle("sep", 150 if quick else 400, synth, "sepstat", sep_stat, env)
 
+    # C14_kernel_bound against the renders: no accumulator word may exceed voices x 65536 x level
     for k, v in sorted(stats.items()):
         ck.note(k, v)
     ck.note("generated_consts", os.path.relpath(gen_mixlinear.OUTFILE, vlib.VERIF))
@@ -304,7 +453,8 @@ def run(ck):
                       "silence renders in which some channel had non-zero nominal volume, solo-sum renders with compared samples and no "
                       "voice-limit hit, separation renders that apply (no stereo sample / surround) and have L != R somewhere")
     ck.assumptions += [
-        "C int arithmetic of the volume stage and kernels does not overflow (model uses unbounded Int; accumulator words are compared mod 2^32)",
+        "C int arithmetic of the volume stage does not overflow (model uses unbounded Int; for the kernels this is a theorem under the stated "
+        "ranges, C14_kernel_fits; accumulator words are compared mod 2^32)",
         "every context's RNG is seeded identically by the harness (IT random volume/pan variation), so twin/solo renders share one timeline",
         "solo-sum oracle skips modules whose render reached the voice limit (virt_used == maxvoc) and samples at the 16-bit limits",
     ]
@@ -317,7 +467,17 @@ def replay(ck, rp):
         for u in r:
             print("UNPROVED %s: %s" % (u.get("name"), u.get("detail", "")[:1500]))
         return 1
+    if "kernel_mode" in r:      # a shard of the kernel harness aborted (sanitizer report inside a real kernel)
+        kexe = vlib.build_harness(*KHARNESS, variant=r.get("variant", "asan"))
+        rc, out, err = vlib.run_exe(kexe, [r["kernel_mode"], str(r["seed"]), str(r["first"]), str(r["n"])], timeout=900)
+        print(err[-2500:])
+        if rc != 0:
+            print("VIOLATION property=C14 replay=c14_kernel %s %s %s %s (rc=%d)" % (r["kernel_mode"], r["seed"], r["first"], r["n"], rc))
+            return 1
+        print("no failure on replay")
+        return 0
     if "c14-synth" in r["module"] and not os.path.exists(r["module"]):
+        gen_c14_synth.overdrive_modules(os.path.dirname(r["module"]))
         gen_c14_synth.generate(os.path.dirname(r["module"]), int(r["seed"]), 8)      # synthetic modules are a function of the seed
     rc, out, err = vlib.run_exe(exe, [r["mode"], str(r["seed"]), str(r["nframes"]), r["module"]], timeout=1500,
                                 env=r.get("env") or None)
